@@ -320,9 +320,31 @@ def withExtension (path ext : Bytes) : Bytes :=
 def Statics.addSassResult (s : Statics) (src css : Bytes) : Statics :=
   s.addHashed uniEsc uniAlnum (withExtension src (str "css")) css (.data css)
 
-/-- Sass `static_name(f)`: look the mangled file name up in `get_names()` (after the repair the
-lookup mangles exactly as `add_static` does) -/
-def staticName (names : List (Bytes × Bytes)) (f : Bytes) : Option Bytes := btGet (mangle uniAlnum f) names
+/-- `url = stem ++ "-" ++ h ++ "." ++ ext` with an eight-byte `h` (the strip-prefix / strip-suffix chain of
+`published_as`) -/
+def hashedForm (stem ext url : Bytes) : Bool :=
+  if stem.isPrefixOf url then
+    match url.drop stem.length with
+    | 45 :: r => r.length == 8 + 1 + ext.length && r.drop 8 == 46 :: ext
+    | _ => false
+  else false
+
+/-- `published_as(name, url_name)`: is `url` what a file called `name` is published as — `name` itself
+(`add_file_as`) or `stem-<8 characters>.ext` where `stem.ext` is the final component of `name`? -/
+def publishedAs (name url : Bytes) : Bool :=
+  url == name ||
+  match nameAndExt (baseName name) with
+  | some (stem, ext) => hashedForm stem ext url
+  | none => false
+
+/-- the lookup by identifier alone (the tree before the last repair: different file names may share an
+identifier, `a.b.css` / `a_b.css`) -/
+def staticNameByIdent (names : List (Bytes × Bytes)) (f : Bytes) : Option Bytes := btGet (mangle uniAlnum f) names
+
+/-- Sass `static_name(f)`: look the mangled file name up in `get_names()` (the lookup mangles exactly as
+`add_static` does) and accept the entry only if its URL name is what a file called `f` is published as -/
+def staticName (names : List (Bytes × Bytes)) (f : Bytes) : Option Bytes :=
+  (btGet (mangle uniAlnum f) names).filter (publishedAs f)
 
 def staticNamePinned (names : List (Bytes × Bytes)) (f : Bytes) : Option Bytes := btGet (sassManglePinned f) names
 
